@@ -6,7 +6,8 @@
 //! failure naming the missing object when the name was never registered.
 //!  (a) BFS to fixpoint over model states (81), every one of the 36 operations in every state;
 //!      after each transition the whole cache is observed through all 24 stateful queries, and
-//!      a second thread (started while the first is still alive) must see an empty cache;
+//!      after every registering operation a second thread (started while the first is still
+//!      alive) must see an empty cache;
 //!  (b) every sequence of the 12 registering operations of length 1..=d (no pruning: includes
 //!      re-registration under the same name and failed preparses in every position), each in a
 //!      fresh thread, with the full observation at the end.
@@ -429,11 +430,13 @@ pub fn run(ctx: &Ctx, tier: Tier) -> Result<(), String> {
             .map(|(m, hist, op)| {
                 let mut h = hist.clone();
                 h.push(*op);
-                let (bad, m_after) = check_history(&h, &table, true, "bfs")?;
+                // the second-thread check follows every registering operation
+                let second = !matches!(op, Op::Auth { .. });
+                let (bad, m_after) = check_history(&h, &table, second, "bfs")?;
                 let (m_expected, _) = m.step(op);
                 let mut l = Local::default();
                 l.case(hash_of(&("bfs", m, op)), &format!("cache:{}", op_kind(op)), *m != Model::default());
-                l.transitions += 1 + 24 + 24;
+                l.transitions += 1 + 24 + if second { 24 } else { 0 };
                 ctx.merge(l);
                 report(&h, bad);
                 debug_assert_eq!(m_after, m_expected);
@@ -459,7 +462,7 @@ pub fn run(ctx: &Ctx, tier: Tier) -> Result<(), String> {
         return Err(format!("cache BFS reached {} model states, expected 81", seen.len()));
     }
     // ---- (b) all sequences of registering operations of length 1..=d
-    let d = tier.pick(3usize, 5usize);
+    let d = tier.pick(3usize, 4usize);
     let mops = mutating_ops();
     let k = mops.len();
     let mut total = 0u64;
